@@ -44,6 +44,8 @@ type runner struct {
 	ntClass map[string]int // plan class -> non-trivial cases
 	why     map[string]int // reason of non-triviality -> cases
 	shapes  map[string]int
+	ndb     int             // databases set up so far
+	seen    map[string]bool // database number + SQL text of the non-trivial cases (distinct count)
 }
 
 var showSQL = os.Getenv("SQLQ_SHOW") != ""
@@ -66,7 +68,8 @@ func setup(tabs []*sqlgen.TableDef) (*eng.DB, *eng.Session) {
 	return db, s
 }
 
-func dbEvent(tabs []*sqlgen.TableDef) event {
+func (r *runner) dbEvent(tabs []*sqlgen.TableDef) event {
+	r.ndb++
 	return event{Ev: "db", DB: sqlgen.DBJSON(tabs), Schema: tabs}
 }
 
@@ -156,7 +159,8 @@ func (r *runner) runQuery(db *eng.DB, s *eng.Session, id int, q *Query, shape st
 				why = append(why, "cut-inside")
 			}
 		}
-		if len(why) > 0 {
+		if key := fmt.Sprintf("%d|%s", r.ndb, text); len(why) > 0 && !r.seen[key] {
+			r.seen[key] = true
 			r.rep.Nontrivial++
 			r.ntClass[ev.Plan]++
 			for _, w := range why {
@@ -231,7 +235,7 @@ func main() {
 		vio.Fatal("%v", err)
 	}
 	r := &runner{w: w, rep: &vio.Report{Extra: map[string]interface{}{}}, kinds: map[string]int{},
-		classes: map[string]int{}, ntClass: map[string]int{}, why: map[string]int{}, shapes: map[string]int{}}
+		seen: map[string]bool{}, classes: map[string]int{}, ntClass: map[string]int{}, why: map[string]int{}, shapes: map[string]int{}}
 	switch *mode {
 	case "gen":
 		r.gen(*seed, *ndb, *nq, only)
@@ -535,7 +539,7 @@ func (r *runner) gen(seed int64, ndb, nq int, only onlySet) {
 			}
 			if s == nil {
 				db, s = setup(g.tabs)
-				r.w.Write(dbEvent(g.tabs))
+				r.w.Write(r.dbEvent(g.tabs))
 			}
 			r.runQuery(db, s, id, q, shape)
 		}
@@ -566,7 +570,7 @@ func (r *runner) exec(path string, only onlySet) {
 					return fmt.Errorf("q before db")
 				}
 				edb, s = setup(pending.Schema)
-				r.w.Write(dbEvent(pending.Schema))
+				r.w.Write(r.dbEvent(pending.Schema))
 			}
 			fixWidths(e.Q, pending.Schema)
 			shape := e.Shape
